@@ -265,25 +265,30 @@ def run(rep, tier):
     q = F.one(T + "linalg_constrained_qrsolve")
     rep.analysed(q)
     A_, b_, c_ = [p["name"] for p in q.j["params"]]
-    inits = {d["name"]: nows(show(d["init"])) for d in q.decls.values() if d.get("init") is not None}
-    want = {"NoVariables": "%s.cols()" % A_, "NoConstrains": "%s.rows()" % c_, "deg_of_freedom": "(NoVariables-NoConstrains)"}
-    for k, v in want.items():
-        rep.check(inits.get(k) == v, "R6.6", "dims|" + k, "%s = %s" % (k, v), "linalg_constrained_qrsolve: %s = %s (required %s)" % (k, inits.get(k), v), q.loc())
-    shape = {
-        "QR": lambda s: s.endswith("(%s.transpose())" % c_),
-        "A_new": lambda s: s.endswith("(%s*QR.householderQ())" % A_) or s == "(%s*QR.householderQ())" % A_,
-        "A2": lambda s: "A_new.rightCols(deg_of_freedom)" in s,
-        "QR2": lambda s: s.endswith("(A2)"),
-        "z": lambda s: "QR2.solve(%s)" % b_ in s,
-        "result": lambda s: "Zero(NoVariables)" in s,
-    }
-    for k, pred in shape.items():
-        rep.check(k in inits and pred(inits[k]), "R6.6", "shape|" + k, "%s = %s" % (k, inits.get(k)), "linalg_constrained_qrsolve: %s is %s" % (k, inits.get(k)), q.loc(), sample=(k in ("A2", "QR")))
-    tails = [n for n in q.walk() if n.get("k") == "opcall" and n.get("op") == "=" and nows(show(n["args"][0])) == "result.tail(deg_of_freedom)"]
-    rep.check(len(tails) == 1 and nows(show(tails[0]["args"][1])) == "z", "R6.6", "assemble", "result = [0; z]", "the solution vector is not assembled as [0; z] (head must stay zero so that the constraints hold exactly)", q.loc(), sample=True)
-    rets = [n for n in q.walk() if n.get("k") == "return"]
-    got = product_chain(rets[-1]["value"]) if rets else None
-    rep.check(got == (1, ["QR.householderQ()", "result"]), "R6.6", "back-transform", "return Q result", "linalg_constrained_qrsolve returns %s (required Q * [0; z])" % (got,), q.loc(), sample=True)
+    fq = Fold(q).run()
+    Av, bv, cv = S(A_), S(b_), S(c_)
+    nvar, ncon = Fn("cols")(Av), Fn("rows")(cv)
+    Qv = Fn("householderQ")(Fn("transpose")(cv))
+    sts = [e for e in fq.events if e["kind"] == "store"]
+    tl = [e for e in sts if unwrap(e.get("target_node") or {}).get("k") == "mcall" and (unwrap(e["target_node"]).get("callee") or "").endswith("::tail") and not e["guards"]]
+    ok = len(sts) == 1 and len(tl) == 1 and len(tl[0].get("idx") or []) == 1
+    rep.check(ok, "R6.6", "assemble", "result = [0; z]: one assignment, into the tail of the result vector", "the solution vector is not assembled as [0; z] (head must stay zero so that the constraints hold exactly): stores %s" % [e["target"] for e in sts],
+              q.loc(), sample=True)
+    if ok:
+        e = tl[0]
+        dof = e["idx"][0]
+        rep.check(sp.simplify(dof - (nvar - ncon)) == 0, "R6.6", "dims|deg_of_freedom", "free part has cols(A) - rows(constr) entries", "linalg_constrained_qrsolve: the free part has %s entries (required cols(%s) - rows(%s))" % (dof, A_, c_), q.loc())
+        want_z = Fn("solve")(Fn("rightCols")(Av * Qv, nvar - ncon), bv)
+        val = e["value"]
+        rep.check(not isinstance(val, (tuple, sp.Matrix)) and sp.simplify(val - want_z) == 0, "R6.6", "shape|A2", "z = QR(rightCols(A Q, dof)).solve(b) with Q = householderQ(constr^T)",
+                  "linalg_constrained_qrsolve solves %s for the free part (required the least-squares solution of rightCols(A*Q, dof) z = b with Q from the QR decomposition of constr^T)" % str(val)[:200], q.loc(), sample=True)
+        rdecl = unwrap(unwrap(e["target_node"]).get("obj") or {}).get("decl")
+        zero0 = str(e.get("target_val") or "").startswith(str(Fn("Zero")(nvar)))
+        rep.check(rdecl is not None and zero0, "R6.6", "shape|result", "result starts as the zero vector of cols(A) entries", "linalg_constrained_qrsolve: the assembled vector starts as %s" % e.get("target_val"), q.loc())
+        rets = [x for x in fq.events if x["kind"] == "return"]
+        okr = len(rets) == 1 and not rets[0]["guards"] and not isinstance(rets[0]["value"], (tuple, sp.Matrix)) and sp.simplify(rets[0]["value"] - Qv * Fn("Zero")(nvar)) == 0 and \
+            any(x.get("k") == "ref" and x.get("decl") == rdecl for x in walk(rets[0]["node"]))
+        rep.check(okr, "R6.6", "back-transform", "return Q result", "linalg_constrained_qrsolve returns %s (required Q * [0; z] with the Q of constr^T)" % (str(rets[0]["value"])[:160] if rets else None), q.loc(), sample=True)
     # ---------------------------------------------------------------- R6.7 (shared with C12)
     from rules import splinelib
     rep.rule("R6.7", "the spline space used by csg_fmatch: cubic basis interpolates, the constraint rows of AddBCToFitMatrix are the C1 "
